@@ -522,7 +522,9 @@ func redactPipelineStage(stage interface{}, redactFieldNames bool, keyPath []str
 		isSelectivelyRedactable := isRedactableFieldPatternInArray(s)
 		return redactArrayValues(s, redactFieldNames, inSearchStage, isSelectivelyRedactable, keyPath)
 	default:
-		return stage
+		// a scalar where a stage or operand document is expected (e.g. an element of
+		// $and / $or / compound.must): redact it like any other array element
+		return redactArrayValues([]any{stage}, redactFieldNames, inSearchStage, false, keyPath)[0]
 	}
 }
 
